@@ -67,7 +67,8 @@ func verifC03Cell(f *File, c *xlsxC) string {
 // slots, whether the representation invariant holds (row slot i holds r=i+1,
 // cell slot j of it holds the reference of (j+1,i+1)), every row slot that has
 // cell slots (with the non-blank cells and their stored references), and the
-// merge list with both the Ref text and the cached rect of every entry.
+// merge list with both the Ref text and the cached rect of every entry, and
+// the number of shared string items.
 func VerifC03Dump(f *File, sheet string) string {
 	ws, err := f.workSheetReader(sheet)
 	if err != nil {
@@ -119,7 +120,11 @@ func VerifC03Dump(f *File, sheet string) string {
 			}
 		}
 	}
-	return fmt.Sprintf("rows=%d dense=%d%s M=%s", len(ws.SheetData.Row), dense, b.String(), m.String())
+	nsst := 0
+	if sst, err := f.sharedStringsReader(); err == nil {
+		nsst = len(sst.SI)
+	}
+	return fmt.Sprintf("rows=%d dense=%d sst=%d%s M=%s", len(ws.SheetData.Row), dense, nsst, b.String(), m.String())
 }
 
 // VerifC03GetCell runs the real getter workflow (getCellStringFunc: merge
